@@ -315,6 +315,10 @@ def adapter(name, cfg):
 def times(name, cfg, tier="thorough"):
     """Time lattice of a family (the catalogue's; the expensive general-EOS Riemann solver uses one time in the quick tier)."""
     ts = list(hydro.by_name(name)["times"](cfg))
+    if name == "EHEP":
+        # documented validity: the region polygons are closed at tmax = 10 and xmax = 10 (class defaults); the detonation
+        # front / escape front is at x = D t
+        ts = [t for t in ts if t < 9.9 and cfg["D"] * t < 9.9]
     if name.startswith("GenEOS") and tier == "quick":
         ts = ts[-1:]
     return ts
